@@ -196,6 +196,13 @@ func (c *ColumnImage) MarshalJSON() ([]byte, error) {
 	if t, ok := c.Value.(time.Time); ok {
 		value = t.Format(time.RFC3339Nano)
 	}
+	switch c.ColumnType {
+	case JDBCTypeChar, JDBCTypeVarchar, JDBCTypeLongVarchar:
+		// character data is always written as plain text, also when the scanner delivered it as bytes
+		if rv := reflect.ValueOf(c.Value); rv.Kind() == reflect.Slice && rv.Type().Elem().Kind() == reflect.Uint8 {
+			value = string(rv.Bytes())
+		}
+	}
 	return json.Marshal(&columnImageAlias{
 		KeyType:    c.KeyType,
 		ColumnName: c.ColumnName,
@@ -252,11 +259,7 @@ func (c *ColumnImage) UnmarshalJSON(data []byte) error {
 				return err
 			}
 		case JDBCTypeChar, JDBCTypeVarchar, JDBCTypeLongVarchar:
-			var val []byte
-			if val, err = base64.StdEncoding.DecodeString(value.(string)); err != nil {
-				val = []byte(value.(string))
-			}
-			actualValue = string(val)
+			actualValue = value.(string)
 		case JDBCTypeBinary, JDBCTypeVarBinary, JDBCTypeLongVarBinary, JDBCTypeBit:
 			actualValue = value
 			// binary values are marshalled as base64 text, turn them back into bytes
